@@ -208,6 +208,39 @@ theorem tebdRun_eq [Mul M] (e : TebdEnv M S R) (s0 : Int) (x0 : S) (n : Nat) :
   unfold tebdRun
   rw [tebdRun_state]
 
+/-! ### object lifetime -/
+
+def addsToOps (adds : List (ChainEntry M × Bool)) : List (TebdHistOp M) :=
+  adds.map (fun a => TebdHistOp.add a.1.op a.1.site a.1.step a.2)
+
+def addAll (c : ChainCtl M) (adds : List (ChainEntry M × Bool)) : ChainCtl M :=
+  adds.foldl (fun c a => c.add a.1.op a.1.site a.1.step a.2) c
+
+theorem foldl_adds [Mul M] (base : TebdEnv M S R) (s0 : Int) (x0 : S) (o : TebdObj M S R)
+    (adds : List (ChainEntry M × Bool)) :
+    (addsToOps adds).foldl (tebdHistStep base s0 x0) o = { o with ctl := addAll o.ctl adds } := by
+  induction adds generalizing o with
+  | nil => rfl
+  | cons a r ih =>
+    simp only [addsToOps, List.map_cons, List.foldl_cons, addAll] at ih ⊢
+    rw [ih]
+    rfl
+
+theorem history_add_then_compute [Mul M] (base : TebdEnv M S R) (c0 : ChainCtl M) (s0 : Int) (x0 : S)
+    (adds : List (ChainEntry M × Bool)) (n : Nat) :
+    tebdHistory base c0 s0 x0 (addsToOps adds ++ [TebdHistOp.compute (s0 + n)])
+      = tebdRun { base with ctl := addAll c0 adds } s0 x0 n := by
+  unfold tebdHistory
+  rw [List.foldl_append, foldl_adds]
+  simp only [List.foldl_cons, List.foldl_nil, tebdHistStep, tebdRun]
+  have hstep : (execTebd { base with ctl := addAll c0 adds } tebdInitialize
+      ⟨s0, x0, []⟩).step = s0 := by
+    rw [tebd_init]
+  rw [hstep]
+  have : (s0 + (n : Int) - s0).toNat = n := by
+    rw [add_sub_cancel_left]; exact Int.toNat_natCast n
+  rw [this]
+
 /-! ### identity operators on a chain -/
 
 theorem applySites_congr (act : Nat → M → S → S) (g g' : Nat → Option M) (n : Nat) (x : S)
